@@ -11,7 +11,15 @@ import concurrent.futures as cf
 import json
 import os
 
-import vlib
+
+def _short(x, n=160):
+    if isinstance(x, str) and len(x) > n:
+        return x[:n] + "...(%d chars)" % len(x)
+    if isinstance(x, dict):
+        return {k: _short(v, n) for k, v in x.items()}
+    if isinstance(x, (list, tuple)):
+        return [_short(v, n) for v in list(x)[:40]]
+    return x
 
 
 def record(ctx, drv, only=None):
@@ -46,7 +54,7 @@ def judge(ctx, trace, stage):
     for m in mism:
         e, bad = m["event"], m["bad"]
         if bad[0].startswith("coverage:"):
-            raise vlib.Infra("C20 trace not judgeable at event %d (%s): %s" % (m["index"], e.get("key"), bad))
+            ctx.infra("C20 trace not judgeable at event %d (%s): %s" % (m["index"], e.get("key"), bad))
         if lines is None:
             lines = open(trace).read().splitlines()
         sig = "%s %s/%s" % (e.get("key"), bad[0], bad[1] if len(bad) > 1 else "")
@@ -59,7 +67,7 @@ def judge(ctx, trace, stage):
                     first = json.loads(x)
                     break
         ctx.violation(sig, "%s: %s" % (bad[0], " ".join(bad[1:])),
-                      dict(event=vlib._shorten(e, 400), earlier_call_with_same_output=vlib._shorten(first, 400) if first else None,
+                      dict(event=_short(e, 400), earlier_call_with_same_output=_short(first, 400) if first else None,
                            spec_says=bad, only=e.get("key")))
     return mism, n
 
@@ -110,7 +118,7 @@ def stuck_bit_control(ctx, trace, blocks):
     bad = (r.last_state or {}).get("bad") or []
     # a cleared bit can also create a repeat in a short field only with negligible probability; the end event is the last line
     if not r.invariant or got != len(sub) + 1 or not bad or "never changes" not in bad[0]:
-        raise vlib.Infra("negative control (stuck bit %d of byte %d in %s) not rejected at the end event: %s l=%s bad=%s"
+        ctx.infra("negative control (stuck bit %d of byte %d in %s) not rejected at the end event: %s l=%s bad=%s"
                          % (bit, pos, b["key"], r.summary(), got, bad))
     ctx.stage("NC:stuck bit", key=b["key"], byte=pos, bit=bit, rejected_at="end", diagnosis=bad)
     ctx.log("negative control: stuck bit rejected at the end of the history (%s)" % bad[2])
@@ -157,7 +165,8 @@ MANIFEST = dict(
           "of the random regions (reusing AEADWire/HPKE/ECIES/OutputPrefix). TLC first checks exhaustively on small scopes that "
           "the incremental monitor equals the declarative property over the history, then validates traces recorded from the "
           "real code: every randomized key type x variant called 512 (quick) / 4096 (thorough) times under one key across 2 OS "
-          "processes x 2 handles x 2 primitive instances (~29k / ~200k outputs, 129+ key histories). NoRepeat (IV/nonce/salt||IV/"
+          "processes x 2 handles x 2 primitive instances, the last instance called from 4 goroutines at once (28.6k / 234k outputs, "
+          "129 / 135 key histories). NoRepeat (IV/nonce/salt||IV/"
           "header/encapsulation/signature/generated key/(manager, key id)) is an invariant after every call; at the end of a "
           "history every bit of every uniform field must have toggled, every byte position must show >= MinDistinct(n) values, "
           "and the XOR of two random regions of one output must itself look random."),
